@@ -5,6 +5,7 @@ pub mod c02;
 pub mod c03;
 pub mod c04;
 pub mod c06;
+pub mod c07;
 pub mod c08;
 pub mod c09;
 pub mod c10;
@@ -21,6 +22,7 @@ pub const TABLE: &[(&str, fn(&mut Ctx))] = &[
 	("C03", c03::run),
 	("C04", c04::run),
 	("C06", c06::run),
+	("C07", c07::run),
 	("C08", c08::run),
 	("C09", c09::run),
 	("C10", c10::run),
